@@ -456,7 +456,7 @@ pub fn parts() -> Vec<Box<dyn PartDyn>> {
     vec![Box::new(Part::<Case> {
         name: "probe",
         rule: "streams of 0-13 real AMQP frames (all 64 methods with generated fields, content headers with generated properties, bodies up to 20 000 bytes, heartbeats) optionally ended by a malformed frame (bad frame-end, unknown type, unknown class), EOF or an I/O error, each fed to FrameBuffer::read_from under two generated cut scripts (1-8 byte chunks, 4096, random; would-block points); oracle: reference split + amq-protocol parse of each frame in isolation, promptness after every call, byte count, metamorphic equality of the two cuts, exact terminal error; non-trivial = a frame spans two read_from calls or exceeds 4096 bytes; distinct by case hash",
-        cases: |t| t.pick(40_000, 1_500_000),
+        cases: |t| t.pick(200_000, 3_000_000),
         threads: 16,
         strategy: strat,
         exec,
